@@ -282,7 +282,7 @@ def run(ctx):
     streams = [
         ("exhaustive, reduced alphabet", ["enum", "--len", "3" if quick else "4"]),
         ("exhaustive, full alphabet", ["enum", "--len", "2", "--alphabet", "full"]),
-        ("random", ["random", "--seed", str(ctx.seed), "--n", "300" if quick else "3000",
+        ("random", ["random", "--seed", str(ctx.seed), "--n", "200" if quick else "1500",
                     "--len", "12" if quick else "40"]),
     ]
     records = []
@@ -310,7 +310,7 @@ def run(ctx):
         for k, v in hashes.items():
             all_hashes.setdefault(k, set()).update(v)
         cases.append((cid, term))
-    diags = dict(C.run_coq_cases(ctx.prop, PREAMBLE, cases, chunk=max(20, len(cases) // (3 * C.NPROC) + 1)))
+    diags = dict(C.run_coq_cases(ctx.prop, PREAMBLE, cases, chunk=min(60, max(20, len(cases) // (3 * C.NPROC) + 1))))
     if len(diags) != len(cases):
         raise C.CheckBroken("expected a diagnosis for every history (%d), got %d" % (len(cases), len(diags)))
 
